@@ -306,7 +306,7 @@ def gen_cases(chk, quick):
     """a case = one multiset of alleles on one gene (+ display flag); it is run in all (or sampled) orders"""
     rng = chk.rng
     cases = []
-    per_n = {0: 1, 1: 3, 2: 8, 3: 10, 4: 8, 5: 3, 6: 1} if quick else {0: 1, 1: 8, 2: 40, 3: 60, 4: 60, 5: 25, 6: 8}
+    per_n = {0: 1, 1: 3, 2: 8, 3: 8, 4: 6, 5: 2, 6: 1} if quick else {0: 1, 1: 8, 2: 40, 3: 60, 4: 60, 5: 25, 6: 8}
     for key in GENES:
         gi = load_gene(key)
         for n, cnt in per_n.items():
@@ -407,8 +407,6 @@ def evaluate(chk, cases, quick):
                 all_names.update(x for x in re.split(r" / | \+ ", im[2]))
                 all_names.update(a["minor"] for a in pal)
                 strings.add(im[2])
-                if any(isinstance(u, int) and u >= 0 and False for h in im[1] for u in h):
-                    pass
             if c.get("malformed"):
                 chk.count(stream, "error" if im[0] == "err" else "no-error")
                 continue
